@@ -50,7 +50,7 @@ Definition row_is_zero (r : pterm) : bool := negb (nonempty (term_vars_p r)) && 
 (* PolyhedralTerm.solve_for_variables: dict var -> solution term, {} when sympy returns [] *)
 Definition solve_for_variables (context : list pterm) (vars_to_elim : list var) : M (list (var * pterm)) :=
   let vars_to_solve := list_intersection (tl_vars context) vars_to_elim in
-  if negb (Nat.eqb (List.length context) (List.length vars_to_solve)) then raise (Escape "AssertionError")
+  if negb (Nat.eqb (List.length context) (List.length vars_to_solve)) then raise ValueErr
   else
     let '(pivots, rest) := gauss vars_to_solve [] context in
     if forallb row_is_zero rest then
@@ -164,7 +164,7 @@ Definition get_tlp_context (O : oracle) (term : pterm) (context : list pterm) (v
   | LpOpt _ slack =>
       let n := List.length fvars in
       let nactive := List.length (filter isclose0 slack) in
-      if Nat.ltb nactive n then raise (Escape "AssertionError")
+      if Nat.ltb nactive n then raise ValueErr
       else
         let rows := tlp_pick context slack fvars n in
         if Nat.ltb (List.length rows) n then raise ValueErr else ret (rows, fvars)
